@@ -199,3 +199,70 @@ Proof.
   - exists 5, 6. split; [|unfold spec_adu_len, exception_pdu_len; lia]. sz_simpl. replace (fc <? 128) with false by lia. reflexivity.
   - exists 3, 4. split; [|unfold spec_adu_len, exception_pdu_len; lia]. sz_simpl. replace (fc <? 128) with false by lia. reflexivity.
 Qed.
+
+(* ------------------------------------------------------------------ TLS framing *)
+
+(* normal reply: the whole frame in the first read, then a read of 0 bytes *)
+Lemma tls_reads_exactly p fc mbap :
+  1 <= p ->
+  recv_plan FTls (expected_response_length FTls (Some p)) (spec_adu_len FTls p) fc mbap
+  = ([Some p; Some 0], RecvDone (Some p)).
+Proof.
+  intros Hp. rewrite adu_overhead by (auto; lia). sz_simpl.
+  replace (Z.min (Z.max p 0) p) with p by lia.
+  replace (p =? p) with true by lia. cbn [negb]. cbv beta iota.
+  replace (p =? 0) with false by lia. apply plan_eq; lia.
+Qed.
+
+(* exception reply (2 bytes) while a p-byte normal reply was predicted: the client asks for p
+   bytes at once and then rejects the short read *)
+Lemma tls_exception_refuted p fc mbap :
+  2 < p ->
+  recv_plan FTls (expected_response_length FTls (Some p)) (spec_adu_len FTls exception_pdu_len) fc mbap
+  = ([Some p], RecvRaises InvalidMessageExc)
+  /\ spec_adu_len FTls exception_pdu_len < p.
+Proof.
+  intros Hp. split; [|unfold spec_adu_len, exception_pdu_len; lia].
+  rewrite adu_overhead by (auto; lia). sz_simpl.
+  replace (Z.min (Z.max p 0) 2) with 2 by lia.
+  replace (2 =? p) with false by lia. reflexivity.
+Qed.
+
+(* ------------------------------------------------------------------ binary framing with escapes *)
+
+Lemma binary_escape_refuted p esc fc mbap :
+  1 <= p -> 0 < esc -> 0 <= fc < 128 ->
+  asked_sum (fst (recv_plan FBinary (expected_response_length FBinary (Some p))
+                            (spec_adu_len FBinary p + esc) fc mbap))
+  = Some (spec_adu_len FBinary p)
+  /\ spec_adu_len FBinary p < spec_adu_len FBinary p + esc.
+Proof.
+  intros Hp He Hfc. split; [|lia]. rewrite adu_overhead by (auto; lia). sz_simpl.
+  replace (Z.min (Z.max 3 0) (1 + 1 + p + 2 + 1 + esc)) with 3 by lia. closed_cmp; cbn [negb]; cbv beta iota.
+  replace (fc <? 128) with true by lia. cbn [fst asked_sum]. f_equal. lia.
+Qed.
+
+(* ------------------------------------------------------------------ end to end *)
+
+Lemma spec_len_pos q p : request_ok q = true -> spec_response_pdu_len q = Some p -> 1 <= p.
+Proof.
+  intros Hok H.
+  assert (Hinj : forall a : Z, Some a = Some p -> a = p) by (intros a E; congruence).
+  destruct q; unfold spec_response_pdu_len, request_ok in *; try discriminate;
+    apply Hinj in H; subst p; unfold ceil8; lia.
+Qed.
+
+(* a request of the quantifier (outside the delimited defects), a stream framing, the server's
+   normal reply as the spec defines it: the client asks for exactly that frame *)
+Lemma end_to_end q f fc mbap p :
+  request_ok q = true -> known_defect q = false -> predicting q = true ->
+  stream_framing f = true -> 0 <= fc < 128 -> spec_response_pdu_len q = Some p ->
+  exists m r,
+    recv_plan f (expected_response_length f (predicted_pdu_size (class_of q) (attrs_of q)))
+              (spec_adu_len f p) fc mbap
+      = ([Some m; Some r], RecvDone (Some (spec_adu_len f p)))
+    /\ 0 < m /\ 0 <= r /\ m + r = spec_adu_len f p.
+Proof.
+  intros Hok Hd Hp Hs Hfc Hspec. rewrite (pdu_size_all q Hok Hd Hp), Hspec.
+  apply reads_exactly_normal; auto. eapply spec_len_pos; eauto.
+Qed.
